@@ -19,7 +19,7 @@ def jsonable(x, depth=0):
         import numpy as np
     except Exception:  # pragma: no cover
         np = None
-    if depth > 8:
+    if depth > 60:
         return repr(x)[:200]
     if x is None or isinstance(x, (bool, int, str)):
         return x
